@@ -105,3 +105,36 @@ for _d in (("n_node",), ("time", "n_face"), ("n_face", "lev")):
                        "forall(0, shape(self.values)[0], 0, shape(self.values)[1], lambda i, j: result.values[i, j] == self.values[i, j])")],
              options={"abstract": True, "summaries": _SUMM},
              raises=[("RuntimeError", "True", "only_if")])
+
+
+# ---- construct_faces: one dual face per primal node of valence >= 3, in node order; row rank(i) = number of such nodes before i.
+# Each row is what _order_nodes returns for THAT node's faces (by _order_nodes' contract): it starts at the node's first face,
+# holds only faces meeting at the node, and is padding beyond the node's valence.
+_RANK = "count({i}, lambda k: n_edges[k] > 2)"
+_IN_ROW = "exists(0, n_edges[i], lambda k: {x} == node_face_connectivity[i, k])"
+contract(_DU + "construct_faces", props=["C18"],
+         sizes=["n_node", "max_edges", "n_dual"],
+         size_constraints=["1 <= n_node", "1 <= max_edges"],
+         params={"n_node": "n_node", "n_edges": "arr(int, n_node)",
+                 "dual_node_x": "arr(real, n_dual)", "dual_node_y": "arr(real, n_dual)", "dual_node_z": "arr(real, n_dual)",
+                 "node_face_connectivity": "arr(int, n_node, max_edges)",
+                 "node_x": "arr(real, n_node)", "node_y": "arr(real, n_node)", "node_z": "arr(real, n_node)"},
+         requires=["forall(0, n_node, lambda i: 0 <= n_edges[i] and n_edges[i] <= max_edges)",
+                   "forall(0, n_node, 0, max_edges, lambda i, k: implies(k < n_edges[i], 0 <= node_face_connectivity[i, k] and "
+                   "node_face_connectivity[i, k] < n_dual))"],
+         returns="arr(int, " + _RANK.format(i="n_node") + ", max_edges)",
+         ensures=["shape(result) == (" + _RANK.format(i="n_node") + ", max_edges)",
+                  "forall(0, n_node, lambda i: implies(n_edges[i] > 2, result[" + _RANK.format(i="i") + ", 0] == node_face_connectivity[i, 0]))",
+                  "forall(0, n_node, 0, max_edges, lambda i, j: implies(n_edges[i] > 2, result[" + _RANK.format(i="i") + ", j] == FILL or "
+                  + _IN_ROW.format(x="result[" + _RANK.format(i="i") + ", j]") + "))",
+                  "forall(0, n_node, 0, max_edges, lambda i, j: implies(n_edges[i] > 2 and j >= n_edges[i], result[" + _RANK.format(i="i") + ", j] == FILL))"],
+         loops={0: loop(counter="i", invariants=[
+             "i - correction == " + _RANK.format(i="i"),
+             "forall(0, i, lambda h: implies(n_edges[h] > 2, construct_node_face_connectivity[" + _RANK.format(i="h") + ", 0] == node_face_connectivity[h, 0]))",
+             "forall(0, i, 0, max_edges, lambda h, j: implies(n_edges[h] > 2, construct_node_face_connectivity[" + _RANK.format(i="h") + ", j] == FILL or "
+             "exists(0, n_edges[h], lambda k: construct_node_face_connectivity[" + _RANK.format(i="h") + ", j] == node_face_connectivity[h, k])))",
+             "forall(0, i, 0, max_edges, lambda h, j: implies(n_edges[h] > 2 and j >= n_edges[h], construct_node_face_connectivity[" + _RANK.format(i="h") + ", j] == FILL))",
+         ]),
+             1: loop(counter="kk", invariants=["index == kk",
+                                               "forall(0, kk, lambda k: temp_face[k] == node_face_connectivity[i, k])"])},
+         raises=[("Exception", "False", "only_if")])
